@@ -75,4 +75,19 @@ def c30(check):
           "DESIGN.md §4 C30")
 
 
-EXTRA = [c03, c06, c10, c11, c30]
+def c29(check):
+    check("C29", "exploration",
+          "Seeded search over histories of API calls in one process image (a forked child per history): 2-5 evaluate_k_path / "
+          "evaluate_k calls with drawn quantities, band selections, k_batch, user tabulators, serially or under the simulated ray "
+          "peer with a drawn completion schedule, on drawn paths (breaks, revisited points, points outside the first cell). The "
+          "value of every named quantity at every path point is computed first with fresh tabulators on a one-point Data_K; every "
+          "call of the history must return exactly those values in path order, and must not raise because of an earlier call. "
+          "Path construction (nodes, labels, uniform sampling, refinement, path coordinate) is checked as a by-product only.",
+          "Reference = same Tabulator classes freshly constructed, one point at a time; equality 1e-8 of max|reference|; the "
+          "construction half of the property is input-level and carries no simulation strength.",
+          "deterministic simulation: seeded call histories per process image with a simulated ray peer, single-point "
+          "evaluation computed first as reference model",
+          "DESIGN.md §4 C29")
+
+
+EXTRA = [c03, c06, c10, c11, c29, c30]
